@@ -40,72 +40,57 @@
   * TrueRange and OnBalanceVolume have no parameters and `new()` is not a `Result`.
   * MACD, PPO and SlowStochastic have no `period()` getter: their "accessors" are the `period()`
     getters of their components, which is what their `Display` prints.
+
+  Dependencies.  Only `Lemmas/Core` (`fresh`, `WF`, `new_eq`), `Lemmas/Misc` (`default_eq`, Display) and the
+  VALUE-AGNOSTIC `Lemmas/Total` (`next_total` / `nextBar_total` / `reset_total`) are imported: the
+  `x_accessors_stable` clauses need "returns, keeps `WF`, keeps the getters" and nothing about the
+  values computed, so a change of the Rust code that only alters arithmetic leaves this file intact.
 -/
 import TaRs.Lemmas.Machine
-import TaRs.Lemmas.SimpleMovingAverage
-import TaRs.Lemmas.ExponentialMovingAverage
-import TaRs.Lemmas.WeightedMovingAverage
-import TaRs.Lemmas.StandardDeviation
-import TaRs.Lemmas.MeanAbsoluteDeviation
-import TaRs.Lemmas.RateOfChange
-import TaRs.Lemmas.EfficiencyRatio
-import TaRs.Lemmas.Minimum
-import TaRs.Lemmas.Maximum
-import TaRs.Lemmas.RelativeStrengthIndex
-import TaRs.Lemmas.MovingAverageConvergenceDivergence
-import TaRs.Lemmas.PercentagePriceOscillator
-import TaRs.Lemmas.BollingerBands
+import TaRs.Lemmas.Total.SimpleMovingAverage
+import TaRs.Lemmas.Total.ExponentialMovingAverage
+import TaRs.Lemmas.Total.WeightedMovingAverage
+import TaRs.Lemmas.Total.StandardDeviation
+import TaRs.Lemmas.Total.MeanAbsoluteDeviation
+import TaRs.Lemmas.Total.RateOfChange
+import TaRs.Lemmas.Total.EfficiencyRatio
+import TaRs.Lemmas.Total.Minimum
+import TaRs.Lemmas.Total.Maximum
+import TaRs.Lemmas.Total.RelativeStrengthIndex
+import TaRs.Lemmas.Total.MovingAverageConvergenceDivergence
+import TaRs.Lemmas.Total.PercentagePriceOscillator
+import TaRs.Lemmas.Total.BollingerBands
+import TaRs.Lemmas.Total.AverageTrueRange
+import TaRs.Lemmas.Total.FastStochastic
+import TaRs.Lemmas.Total.SlowStochastic
+import TaRs.Lemmas.Total.KeltnerChannel
+import TaRs.Lemmas.Total.ChandelierExit
+import TaRs.Lemmas.Total.CommodityChannelIndex
+import TaRs.Lemmas.Total.MoneyFlowIndex
 import TaRs.Lemmas.Core.TrueRange
-import TaRs.Lemmas.AverageTrueRange
-import TaRs.Lemmas.FastStochastic
-import TaRs.Lemmas.SlowStochastic
-import TaRs.Lemmas.KeltnerChannel
-import TaRs.Lemmas.ChandelierExit
-import TaRs.Lemmas.CommodityChannelIndex
-import TaRs.Lemmas.MoneyFlowIndex
 import TaRs.Lemmas.Core.OnBalanceVolume
-import TaRs.Lemmas.Reset.SlowStochastic
-import TaRs.Lemmas.Misc.SlowStochastic
-import TaRs.Lemmas.Reset.RateOfChange
-import TaRs.Lemmas.Misc.RateOfChange
-import TaRs.Lemmas.Reset.RelativeStrengthIndex
-import TaRs.Lemmas.Misc.RelativeStrengthIndex
-import TaRs.Lemmas.Reset.StandardDeviation
-import TaRs.Lemmas.Misc.StandardDeviation
-import TaRs.Lemmas.Reset.EfficiencyRatio
-import TaRs.Lemmas.Misc.EfficiencyRatio
-import TaRs.Lemmas.Reset.PercentagePriceOscillator
-import TaRs.Lemmas.Misc.PercentagePriceOscillator
-import TaRs.Lemmas.Misc.OnBalanceVolume
-import TaRs.Lemmas.Reset.ExponentialMovingAverage
-import TaRs.Lemmas.Misc.ExponentialMovingAverage
-import TaRs.Lemmas.Reset.MovingAverageConvergenceDivergence
-import TaRs.Lemmas.Misc.MovingAverageConvergenceDivergence
-import TaRs.Lemmas.Reset.ChandelierExit
-import TaRs.Lemmas.Misc.ChandelierExit
-import TaRs.Lemmas.Reset.CommodityChannelIndex
-import TaRs.Lemmas.Misc.CommodityChannelIndex
-import TaRs.Lemmas.Reset.BollingerBands
-import TaRs.Lemmas.Misc.BollingerBands
-import TaRs.Lemmas.Reset.AverageTrueRange
-import TaRs.Lemmas.Misc.AverageTrueRange
-import TaRs.Lemmas.Reset.Maximum
-import TaRs.Lemmas.Misc.Maximum
-import TaRs.Lemmas.Reset.WeightedMovingAverage
-import TaRs.Lemmas.Misc.WeightedMovingAverage
-import TaRs.Lemmas.Reset.SimpleMovingAverage
 import TaRs.Lemmas.Misc.SimpleMovingAverage
-import TaRs.Lemmas.Reset.MoneyFlowIndex
-import TaRs.Lemmas.Misc.MoneyFlowIndex
-import TaRs.Lemmas.Reset.FastStochastic
-import TaRs.Lemmas.Misc.FastStochastic
-import TaRs.Lemmas.Reset.KeltnerChannel
-import TaRs.Lemmas.Misc.KeltnerChannel
-import TaRs.Lemmas.Reset.Minimum
-import TaRs.Lemmas.Misc.Minimum
-import TaRs.Lemmas.Reset.MeanAbsoluteDeviation
+import TaRs.Lemmas.Misc.ExponentialMovingAverage
+import TaRs.Lemmas.Misc.WeightedMovingAverage
+import TaRs.Lemmas.Misc.StandardDeviation
 import TaRs.Lemmas.Misc.MeanAbsoluteDeviation
+import TaRs.Lemmas.Misc.RateOfChange
+import TaRs.Lemmas.Misc.EfficiencyRatio
+import TaRs.Lemmas.Misc.Minimum
+import TaRs.Lemmas.Misc.Maximum
+import TaRs.Lemmas.Misc.RelativeStrengthIndex
+import TaRs.Lemmas.Misc.MovingAverageConvergenceDivergence
+import TaRs.Lemmas.Misc.PercentagePriceOscillator
+import TaRs.Lemmas.Misc.BollingerBands
+import TaRs.Lemmas.Misc.AverageTrueRange
+import TaRs.Lemmas.Misc.FastStochastic
+import TaRs.Lemmas.Misc.SlowStochastic
+import TaRs.Lemmas.Misc.KeltnerChannel
+import TaRs.Lemmas.Misc.ChandelierExit
+import TaRs.Lemmas.Misc.CommodityChannelIndex
+import TaRs.Lemmas.Misc.MoneyFlowIndex
 import TaRs.Lemmas.Misc.TrueRange
+import TaRs.Lemmas.Misc.OnBalanceVolume
 
 namespace TaRs.Props.C11
 open TaRs TaRs.Gen TaRs.Rs
@@ -198,8 +183,8 @@ theorem sma_accessors_stable (s : SimpleMovingAverage F) (h : SimpleMovingAverag
     (∀ b, ∃ r, s.nextBar b = some r ∧ SimpleMovingAverage.WF r.1 ∧ r.1.period_fn = s.period_fn) ∧
     (∃ r, s.reset = some r ∧ SimpleMovingAverage.WF r ∧ r.period_fn = s.period_fn) :=
   ⟨fun x => SimpleMovingAverage.next_total s x h,
-   fun b => by rw [SimpleMovingAverage.nextBar_eq]; exact SimpleMovingAverage.next_total s _ h,
-   ⟨_, SimpleMovingAverage.reset_eq s h, SimpleMovingAverage.fresh_wf _ h.pos h.small, rfl⟩⟩
+   fun b => SimpleMovingAverage.nextBar_total s b h,
+   SimpleMovingAverage.reset_total s h⟩
 
 theorem sma_display (fmt : F → String) (p : Nat) :
     SimpleMovingAverage.display fmt (SimpleMovingAverage.fresh p : SimpleMovingAverage F) = "SMA(" ++ toString p ++ ")" := rfl
@@ -229,8 +214,8 @@ theorem wma_accessors_stable (s : WeightedMovingAverage F) (h : WeightedMovingAv
     (∀ b, ∃ r, s.nextBar b = some r ∧ WeightedMovingAverage.WF r.1 ∧ r.1.period_fn = s.period_fn) ∧
     (∃ r, s.reset = some r ∧ WeightedMovingAverage.WF r ∧ r.period_fn = s.period_fn) :=
   ⟨fun x => WeightedMovingAverage.next_total s x h,
-   fun b => by rw [WeightedMovingAverage.nextBar_eq]; exact WeightedMovingAverage.next_total s _ h,
-   ⟨_, WeightedMovingAverage.reset_eq s h, WeightedMovingAverage.fresh_wf _ h.pos h.small, rfl⟩⟩
+   fun b => WeightedMovingAverage.nextBar_total s b h,
+   WeightedMovingAverage.reset_total s h⟩
 
 theorem wma_display (fmt : F → String) (p : Nat) :
     WeightedMovingAverage.display fmt (WeightedMovingAverage.fresh p : WeightedMovingAverage F) = "WMA(" ++ toString p ++ ")" := rfl
@@ -260,8 +245,8 @@ theorem sd_accessors_stable (s : StandardDeviation F) (h : StandardDeviation.WF 
     (∀ b, ∃ r, s.nextBar b = some r ∧ StandardDeviation.WF r.1 ∧ r.1.period_fn = s.period_fn) ∧
     (∃ r, s.reset = some r ∧ StandardDeviation.WF r ∧ r.period_fn = s.period_fn) :=
   ⟨fun x => StandardDeviation.next_total s x h,
-   fun b => by rw [StandardDeviation.nextBar_eq]; exact StandardDeviation.next_total s _ h,
-   ⟨_, StandardDeviation.reset_eq s h, StandardDeviation.fresh_wf _ h.pos h.small, rfl⟩⟩
+   fun b => StandardDeviation.nextBar_total s b h,
+   StandardDeviation.reset_total s h⟩
 
 theorem sd_display (fmt : F → String) (p : Nat) :
     StandardDeviation.display fmt (StandardDeviation.fresh p : StandardDeviation F) = "SD(" ++ toString p ++ ")" := rfl
@@ -291,8 +276,8 @@ theorem mad_accessors_stable (s : MeanAbsoluteDeviation F) (h : MeanAbsoluteDevi
     (∀ b, ∃ r, s.nextBar b = some r ∧ MeanAbsoluteDeviation.WF r.1 ∧ r.1.period_fn = s.period_fn) ∧
     (∃ r, s.reset = some r ∧ MeanAbsoluteDeviation.WF r ∧ r.period_fn = s.period_fn) :=
   ⟨fun x => MeanAbsoluteDeviation.next_total s x h,
-   fun b => by rw [MeanAbsoluteDeviation.nextBar_eq]; exact MeanAbsoluteDeviation.next_total s _ h,
-   ⟨_, MeanAbsoluteDeviation.reset_eq s h, MeanAbsoluteDeviation.fresh_wf _ h.pos h.small, rfl⟩⟩
+   fun b => MeanAbsoluteDeviation.nextBar_total s b h,
+   MeanAbsoluteDeviation.reset_total s h⟩
 
 theorem mad_display (fmt : F → String) (p : Nat) :
     MeanAbsoluteDeviation.display fmt (MeanAbsoluteDeviation.fresh p : MeanAbsoluteDeviation F) = "MAD(" ++ toString p ++ ")" := rfl
@@ -322,8 +307,8 @@ theorem roc_accessors_stable (s : RateOfChange F) (h : RateOfChange.WF s) :
     (∀ b, ∃ r, s.nextBar b = some r ∧ RateOfChange.WF r.1 ∧ r.1.period_fn = s.period_fn) ∧
     (∃ r, s.reset = some r ∧ RateOfChange.WF r ∧ r.period_fn = s.period_fn) :=
   ⟨fun x => RateOfChange.next_total s x h,
-   fun b => by rw [RateOfChange.nextBar_eq]; exact RateOfChange.next_total s _ h,
-   ⟨_, RateOfChange.reset_eq s h, RateOfChange.fresh_wf _ h.pos h.small, rfl⟩⟩
+   fun b => RateOfChange.nextBar_total s b h,
+   RateOfChange.reset_total s h⟩
 
 theorem roc_display (fmt : F → String) (p : Nat) :
     RateOfChange.display fmt (RateOfChange.fresh p : RateOfChange F) = "ROC(" ++ toString p ++ ")" := rfl
@@ -353,8 +338,8 @@ theorem er_accessors_stable (s : EfficiencyRatio F) (h : EfficiencyRatio.WF s) :
     (∀ b, ∃ r, s.nextBar b = some r ∧ EfficiencyRatio.WF r.1 ∧ r.1.period_fn = s.period_fn) ∧
     (∃ r, s.reset = some r ∧ EfficiencyRatio.WF r ∧ r.period_fn = s.period_fn) :=
   ⟨fun x => EfficiencyRatio.next_total s x h,
-   fun b => by rw [EfficiencyRatio.nextBar_eq]; exact EfficiencyRatio.next_total s _ h,
-   ⟨_, EfficiencyRatio.reset_eq s h, EfficiencyRatio.fresh_wf _ h.pos h.small, rfl⟩⟩
+   fun b => EfficiencyRatio.nextBar_total s b h,
+   EfficiencyRatio.reset_total s h⟩
 
 theorem er_display (fmt : F → String) (p : Nat) :
     EfficiencyRatio.display fmt (EfficiencyRatio.fresh p : EfficiencyRatio F) = "ER(" ++ toString p ++ ")" := rfl
@@ -384,8 +369,8 @@ theorem minimum_accessors_stable (s : Minimum F) (h : Minimum.WF s) :
     (∀ b, ∃ r, s.nextBar b = some r ∧ Minimum.WF r.1 ∧ r.1.period_fn = s.period_fn) ∧
     (∃ r, s.reset = some r ∧ Minimum.WF r ∧ r.period_fn = s.period_fn) :=
   ⟨fun x => Minimum.next_total s x h,
-   fun b => by rw [Minimum.nextBar_eq]; exact Minimum.next_total s _ h,
-   ⟨_, Minimum.reset_eq s h, Minimum.fresh_wf _ h.pos h.small, rfl⟩⟩
+   fun b => Minimum.nextBar_total s b h,
+   Minimum.reset_total s h⟩
 
 theorem minimum_display (fmt : F → String) (p : Nat) :
     Minimum.display fmt (Minimum.fresh p : Minimum F) = "MIN(" ++ toString p ++ ")" := rfl
@@ -415,8 +400,8 @@ theorem maximum_accessors_stable (s : Maximum F) (h : Maximum.WF s) :
     (∀ b, ∃ r, s.nextBar b = some r ∧ Maximum.WF r.1 ∧ r.1.period_fn = s.period_fn) ∧
     (∃ r, s.reset = some r ∧ Maximum.WF r ∧ r.period_fn = s.period_fn) :=
   ⟨fun x => Maximum.next_total s x h,
-   fun b => by rw [Maximum.nextBar_eq]; exact Maximum.next_total s _ h,
-   ⟨_, Maximum.reset_eq s h, Maximum.fresh_wf _ h.pos h.small, rfl⟩⟩
+   fun b => Maximum.nextBar_total s b h,
+   Maximum.reset_total s h⟩
 
 theorem maximum_display (fmt : F → String) (p : Nat) :
     Maximum.display fmt (Maximum.fresh p : Maximum F) = "MAX(" ++ toString p ++ ")" := rfl
@@ -445,8 +430,8 @@ theorem ema_accessors_stable (s : ExponentialMovingAverage F) (h : ExponentialMo
     (∀ b, ∃ r, s.nextBar b = some r ∧ ExponentialMovingAverage.WF r.1 ∧ r.1.period_fn = s.period_fn) ∧
     (∃ r, s.reset = some r ∧ ExponentialMovingAverage.WF r ∧ r.period_fn = s.period_fn) :=
   ⟨fun x => ExponentialMovingAverage.next_total s x h,
-   fun b => by rw [ExponentialMovingAverage.nextBar_eq]; exact ExponentialMovingAverage.next_total s _ h,
-   ⟨_, ExponentialMovingAverage.reset_eq s h, ExponentialMovingAverage.fresh_wf _ (h.pos), rfl⟩⟩
+   fun b => ExponentialMovingAverage.nextBar_total s b h,
+   ExponentialMovingAverage.reset_total s h⟩
 
 theorem ema_display (fmt : F → String) (p : Nat) :
     ExponentialMovingAverage.display fmt (ExponentialMovingAverage.fresh p : ExponentialMovingAverage F) = "EMA(" ++ toString p ++ ")" := rfl
@@ -476,7 +461,7 @@ theorem rsi_accessors_stable (s : RelativeStrengthIndex F) (h : RelativeStrength
     (∃ r, s.reset = some r ∧ RelativeStrengthIndex.WF r ∧ r.period_fn = s.period_fn) :=
   ⟨fun x => RelativeStrengthIndex.next_total s x h,
    fun b => RelativeStrengthIndex.nextBar_total s b h,
-   ⟨_, RelativeStrengthIndex.reset_eq s h, RelativeStrengthIndex.fresh_wf _ (h.up_period ▸ h.up.pos), rfl⟩⟩
+   RelativeStrengthIndex.reset_total s h⟩
 
 theorem rsi_display (fmt : F → String) (p : Nat) :
     RelativeStrengthIndex.display fmt (RelativeStrengthIndex.fresh p : RelativeStrengthIndex F) = "RSI(" ++ toString p ++ ")" := rfl
@@ -506,7 +491,7 @@ theorem atr_accessors_stable (s : AverageTrueRange F) (h : AverageTrueRange.WF s
     (∃ r, s.reset = some r ∧ AverageTrueRange.WF r ∧ r.period_fn = s.period_fn) :=
   ⟨fun x => AverageTrueRange.next_total s x h,
    fun b => AverageTrueRange.nextBar_total s b h,
-   ⟨_, AverageTrueRange.reset_eq s h, AverageTrueRange.fresh_wf _ (h.ema.pos), rfl⟩⟩
+   AverageTrueRange.reset_total s h⟩
 
 theorem atr_display (fmt : F → String) (p : Nat) :
     AverageTrueRange.display fmt (AverageTrueRange.fresh p : AverageTrueRange F) = "ATR(" ++ toString p ++ ")" := rfl
@@ -545,7 +530,7 @@ theorem macd_accessors_stable (s : MovingAverageConvergenceDivergence F) (h : Mo
       r.slow_ema.period_fn = s.slow_ema.period_fn ∧ r.signal_ema.period_fn = s.signal_ema.period_fn) :=
   ⟨fun x => MovingAverageConvergenceDivergence.next_total s x h,
    fun b => MovingAverageConvergenceDivergence.nextBar_total s b h,
-   ⟨_, MovingAverageConvergenceDivergence.reset_eq s h, MovingAverageConvergenceDivergence.fresh_wf _ _ _ h.fast.pos h.slow.pos h.signal.pos, rfl, rfl, rfl⟩⟩
+   MovingAverageConvergenceDivergence.reset_total s h⟩
 
 theorem macd_display (fmt : F → String) (fp sp gp : Nat) :
     MovingAverageConvergenceDivergence.display fmt (MovingAverageConvergenceDivergence.fresh fp sp gp : MovingAverageConvergenceDivergence F) =
@@ -585,7 +570,7 @@ theorem ppo_accessors_stable (s : PercentagePriceOscillator F) (h : PercentagePr
       r.slow_ema.period_fn = s.slow_ema.period_fn ∧ r.signal_ema.period_fn = s.signal_ema.period_fn) :=
   ⟨fun x => PercentagePriceOscillator.next_total s x h,
    fun b => PercentagePriceOscillator.nextBar_total s b h,
-   ⟨_, PercentagePriceOscillator.reset_eq s h, PercentagePriceOscillator.fresh_wf _ _ _ h.fast.pos h.slow.pos h.signal.pos, rfl, rfl, rfl⟩⟩
+   PercentagePriceOscillator.reset_total s h⟩
 
 theorem ppo_display (fmt : F → String) (fp sp gp : Nat) :
     PercentagePriceOscillator.display fmt (PercentagePriceOscillator.fresh fp sp gp : PercentagePriceOscillator F) =
@@ -617,7 +602,7 @@ theorem faststochastic_accessors_stable (s : FastStochastic F) (h : FastStochast
     (∃ r, s.reset = some r ∧ FastStochastic.WF r ∧ r.period_fn = s.period_fn) :=
   ⟨fun x => FastStochastic.next_total s x h,
    fun b => FastStochastic.nextBar_total s b h,
-   ⟨_, FastStochastic.reset_eq s h, FastStochastic.fresh_wf _ (h.pos) (h.pmin ▸ h.min.small), rfl⟩⟩
+   FastStochastic.reset_total s h⟩
 
 theorem faststochastic_display (fmt : F → String) (p : Nat) :
     FastStochastic.display fmt (FastStochastic.fresh p : FastStochastic F) = "FAST_STOCH(" ++ toString p ++ ")" := rfl
@@ -646,7 +631,7 @@ theorem cci_accessors_stable (s : CommodityChannelIndex F) (h : CommodityChannel
     (∀ b, ∃ r, s.nextBar b = some r ∧ CommodityChannelIndex.WF r.1 ∧ r.1.period_fn = s.period_fn) ∧
     (∃ r, s.reset = some r ∧ CommodityChannelIndex.WF r ∧ r.period_fn = s.period_fn) :=
   ⟨fun b => CommodityChannelIndex.nextBar_total s b h,
-   ⟨_, CommodityChannelIndex.reset_eq s h, CommodityChannelIndex.fresh_wf _ (h.sma.pos) (h.sma.small), rfl⟩⟩
+   CommodityChannelIndex.reset_total s h⟩
 
 theorem cci_display (fmt : F → String) (p : Nat) :
     CommodityChannelIndex.display fmt (CommodityChannelIndex.fresh p : CommodityChannelIndex F) = "CCI(" ++ toString p ++ ")" := rfl
@@ -675,7 +660,7 @@ theorem mfi_accessors_stable (s : MoneyFlowIndex F) (h : MoneyFlowIndex.WF s) :
     (∀ b, ∃ r, s.nextBar b = some r ∧ MoneyFlowIndex.WF r.1 ∧ r.1.period_fn = s.period_fn) ∧
     (∃ r, s.reset = some r ∧ MoneyFlowIndex.WF r ∧ r.period_fn = s.period_fn) :=
   ⟨fun b => MoneyFlowIndex.nextBar_total s b h,
-   ⟨_, MoneyFlowIndex.reset_eq s h, MoneyFlowIndex.fresh_wf _ (h.pos) (h.small), rfl⟩⟩
+   MoneyFlowIndex.reset_total s h⟩
 
 theorem mfi_display (fmt : F → String) (p : Nat) :
     MoneyFlowIndex.display fmt (MoneyFlowIndex.fresh p : MoneyFlowIndex F) = "MFI(" ++ toString p ++ ")" := rfl
@@ -743,7 +728,7 @@ theorem slowstochastic_accessors_stable (s : SlowStochastic F) (h : SlowStochast
       r.fast_stochastic.period_fn = s.fast_stochastic.period_fn ∧ r.ema.period_fn = s.ema.period_fn) :=
   ⟨fun x => SlowStochastic.next_total s x h,
    fun b => SlowStochastic.nextBar_total s b h,
-   SlowStochastic.reset_wf s h⟩
+   SlowStochastic.reset_total s h⟩
 
 theorem slowstochastic_display (fmt : F → String) (sp ep : Nat) :
     SlowStochastic.display fmt (SlowStochastic.fresh sp ep : SlowStochastic F) =
@@ -777,8 +762,8 @@ theorem bb_accessors_stable (s : BollingerBands F) (h : BollingerBands.WF s) :
     (∀ b, ∃ r, s.nextBar b = some r ∧ BollingerBands.WF r.1 ∧ r.1.period_fn = s.period_fn ∧ r.1.multiplier_fn = s.multiplier_fn) ∧
     (∃ r, s.reset = some r ∧ BollingerBands.WF r ∧ r.period_fn = s.period_fn ∧ r.multiplier_fn = s.multiplier_fn) :=
   ⟨fun x => BollingerBands.next_total s x h,
-   fun b => by rw [BollingerBands.nextBar_eq]; exact BollingerBands.next_total s _ h,
-   ⟨_, BollingerBands.reset_eq s h, BollingerBands.fresh_wf _ _ (h.per ▸ h.sd.pos) (h.per ▸ h.sd.small), rfl, rfl⟩⟩
+   fun b => BollingerBands.nextBar_total s b h,
+   BollingerBands.reset_total s h⟩
 
 theorem bb_display (fmt : F → String) (p : Nat) (m : F) :
     BollingerBands.display fmt (BollingerBands.fresh p m : BollingerBands F) = "BB(" ++ toString p ++ ", " ++ fmt m ++ ")" := rfl
@@ -812,7 +797,7 @@ theorem kc_accessors_stable (s : KeltnerChannel F) (h : KeltnerChannel.WF s) :
     (∃ r, s.reset = some r ∧ KeltnerChannel.WF r ∧ r.period_fn = s.period_fn ∧ r.multiplier_fn = s.multiplier_fn) :=
   ⟨fun x => KeltnerChannel.next_total s x h,
    fun b => KeltnerChannel.nextBar_total s b h,
-   ⟨_, KeltnerChannel.reset_eq s h, KeltnerChannel.fresh_wf _ _ (h.ema_period ▸ h.ema.pos), rfl, rfl⟩⟩
+   KeltnerChannel.reset_total s h⟩
 
 theorem kc_display (fmt : F → String) (p : Nat) (m : F) :
     KeltnerChannel.display fmt (KeltnerChannel.fresh p m : KeltnerChannel F) = "KC(" ++ toString p ++ ", " ++ fmt m ++ ")" := rfl
@@ -844,7 +829,7 @@ theorem ce_accessors_stable (s : ChandelierExit F) (h : ChandelierExit.WF s) :
     (∀ b, ∃ r, s.nextBar b = some r ∧ ChandelierExit.WF r.1 ∧ r.1.period_fn = s.period_fn ∧ r.1.multiplier_fn = s.multiplier_fn) ∧
     (∃ r, s.reset = some r ∧ ChandelierExit.WF r ∧ r.period_fn = s.period_fn ∧ r.multiplier_fn = s.multiplier_fn) :=
   ⟨fun b => ChandelierExit.nextBar_total s b h,
-   ⟨_, ChandelierExit.reset_eq s h, ChandelierExit.fresh_wf _ _ (h.atr.ema.pos) (by have := h.min.small; rw [h.pmin] at this; exact this), rfl, rfl⟩⟩
+   ChandelierExit.reset_total s h⟩
 
 theorem ce_display (fmt : F → String) (p : Nat) (m : F) :
     ChandelierExit.display fmt (ChandelierExit.fresh p m : ChandelierExit F) = "CE(" ++ toString p ++ ", " ++ fmt m ++ ")" := rfl
